@@ -193,6 +193,15 @@ def check(plan, ctx):
     ctx.cls(f"features_{min(len(feats), 3)}", "top_members" if plan["top"] else "no_top_members")
     if any(f["geometry"] is None for f in feats):
         ctx.cls("null_geometry")
+    ctx.cls(*("proptype_" + t for t in plan["types"].values()), "indent_" + str(plan["indent"]), "suffix_" + (plan["suffix"] or "none"))
+    if any(k in "features" or k in "properties" or "type" in k for k in list(plan["top"]) + list(plan["keys"])):
+        ctx.cls("name_contained_in_a_format_word")
+    if len({tuple(sorted(f["properties"])) for f in feats}) >= 2:
+        ctx.cls("features_with_different_key_sets")
+    if any(v is None for f in feats for v in f["properties"].values()):
+        ctx.cls("null_property")
+    if any("id" in f or "bbox" in f for f in feats):
+        ctx.cls("extra_feature_member")
 
     # ---- write -> json.load ----
     out = ctx.path("out.geojson" + plan["suffix"])
